@@ -43,6 +43,13 @@ func (c08Stream) Generate(rng *rand.Rand, n int, thorough bool) []Case {
 		cs = append(cs, Case{Line: fmt.Sprintf("c08 conns=70000 ending=churn inflight=none mode=plain seed=%d", rng.Intn(1<<30)), Kind: "churn"})
 	}
 	for len(cs) < n {
+		if rng.Intn(12) == 0 {
+			// what an application does with more than one server, or with a server that is running: two servers built
+			// from ONE slice of options and one mux; a new router handed to a running server; Router() called while Stop
+			// is waiting for a busy connection
+			cs = append(cs, Case{Line: fmt.Sprintf("c08 conns=2 ending=%s inflight=none mode=plain seed=%d", []string{"twoservers", "routerswap", "stoprouter"}[rng.Intn(3)], rng.Intn(1<<30)), Kind: "servers"})
+			continue
+		}
 		if rng.Intn(10) == 0 {
 			// a burst of connections ending together while the OnClose callback is slow; on a TLS listener some of them
 			// never complete (or never start) their handshake
@@ -362,6 +369,9 @@ func (c08Stream) Impl(c Case) string {
 	}
 	if p["ending"] == "burst" {
 		return c08Burst(atoi(p["conns"]), p["mode"], int64(atoi(p["seed"])))
+	}
+	if e := p["ending"]; e == "twoservers" || e == "routerswap" || e == "stoprouter" {
+		return c08Servers(e)
 	}
 	k, ending, inflight, mode := atoi(p["conns"]), p["ending"], p["inflight"], p["mode"]
 	dupid := p["dupid"] == "1"
@@ -778,6 +788,8 @@ func (c08Stream) Oracle(c Case, impl string) (bool, string, string) {
 		key = "c08/fd-leak"
 	case strings.Contains(impl, "not closed by the server"):
 		key = "c08/not-closed"
+	case strings.Contains(impl, "one slice of options"), strings.Contains(impl, "Router()"):
+		key = "c08/servers/" + strings.Fields(c.Line)[2]
 	case strings.Contains(impl, "never finished their teardown"):
 		key = "c08/teardown-incomplete/" + c.Kind
 	}
@@ -787,4 +799,201 @@ func (c08Stream) Oracle(c Case, impl string) (bool, string, string) {
 func (c08Stream) Class(c Case, impl string) (string, bool) {
 	p := kv(c.Line)
 	return p["ending"] + "/" + p["inflight"] + "/" + strings.Fields(impl + " -")[0], p["inflight"] != "none" && impl == "ok"
+}
+
+// c08Servers: connections of servers that share what an application naturally shares, or whose router is replaced.
+//   twoservers: two servers built from one slice of options (one OnClose callback) and one mux; a client binds and
+//               leaves on each: the callback is called once for each connection, with that connection's id.
+//   routerswap: a client stays connected; the application hands the running server a new mux; two more clients come
+//               and go: the three connections have three ids, each reported once.
+//   stoprouter: Stop waits for a connection whose handler is busy; the application calls Router() meanwhile; the
+//               handler returns: the connection is closed and reported, Stop and Router() return.
+func c08Servers(kind string) string {
+	curTracer.Store(NewTracer())
+	var mu sync.Mutex
+	closed := map[int]int{}
+	seen := map[string]int{} // client tag -> connection id its handler saw
+	release := make(chan struct{})
+	entered := make(chan struct{}, 8)
+	h := func(w *gldap.ResponseWriter, r *gldap.Request) {
+		if m, ok := r.VerifMessage().(*gldap.SimpleBindMessage); ok {
+			mu.Lock()
+			seen[m.UserName] = r.ConnectionID()
+			mu.Unlock()
+			if m.UserName == "cn=busy" {
+				entered <- struct{}{}
+				<-release
+			}
+		}
+		answer(w, r)
+	}
+	opts := []gldap.Option{gldap.WithLogger(hclog.NewNullLogger()), gldap.WithOnClose(func(id int) {
+		mu.Lock()
+		closed[id]++
+		mu.Unlock()
+	})}
+	mkMux := func() *gldap.Mux { return allRoutes(h, nil, nil) }
+	start := func(mux *gldap.Mux) (*gldap.Server, string, chan error) {
+		srv, err := gldap.NewServer(opts...)
+		if err != nil {
+			return nil, "", nil
+		}
+		_ = srv.Router(mux)
+		addr := freeAddr()
+		errc := make(chan error, 1)
+		go func() { errc <- srv.Run(addr) }()
+		for i := 0; i < 3000 && !srv.Ready(); i++ {
+			time.Sleep(time.Millisecond)
+		}
+		return srv, addr, errc
+	}
+	bindOn := func(addr, tag string, leave bool) (*rawClient, string) {
+		cl, err := dialRaw(addr, nil)
+		if err != nil {
+			return nil, "harness-error connect: " + err.Error()
+		}
+		if tag == "cn=busy" {
+			_ = cl.send(Seq(Int(2, 1), C(1, 0, Int(2, 3), Oct(tag), P(2, 0, []byte("pw")))).Ser())
+			return cl, ""
+		}
+		_ = cl.send(Seq(Int(2, 1), C(1, 0, Int(2, 3), Oct(tag), P(2, 0, []byte("pw")))).Ser())
+		if f, err := cl.readFrame(5 * time.Second); err != nil || !strings.HasPrefix(strictView(f), "result id=1 tag=1 code=0") {
+			cl.close()
+			return nil, fmt.Sprintf("the bind of %s was not answered: %v", tag, err)
+		}
+		if leave {
+			cl.close()
+			return nil, ""
+		}
+		return cl, ""
+	}
+	waitClosed := func(total int) bool {
+		for i := 0; i < 3000; i++ {
+			mu.Lock()
+			n := 0
+			for _, c := range closed {
+				n += c
+			}
+			mu.Unlock()
+			if n >= total {
+				return true
+			}
+			time.Sleep(time.Millisecond)
+		}
+		return false
+	}
+	stopAll := func(srvs ...*gldap.Server) {
+		for _, s := range srvs {
+			if s != nil {
+				done := make(chan struct{})
+				go func(s *gldap.Server) { _ = s.Stop(); close(done) }(s)
+				select {
+				case <-done:
+				case <-time.After(3 * time.Second):
+				}
+			}
+		}
+	}
+	verdict := "ok"
+	switch kind {
+	case "twoservers":
+		mux := mkMux()
+		a, addrA, _ := start(mux)
+		b, addrB, _ := start(mux)
+		defer stopAll(a, b)
+		if a == nil || b == nil {
+			return "harness-error start"
+		}
+		for _, x := range []struct{ addr, tag string }{{addrA, "cn=on-a"}, {addrB, "cn=on-b"}} {
+			if _, e := bindOn(x.addr, x.tag, true); e != "" {
+				return e
+			}
+		}
+		if !waitClosed(2) {
+			mu.Lock()
+			verdict = fmt.Sprintf("two servers built from one slice of options, one connection on each: OnClose calls by id = %v, want one call for each of the two connections", closed)
+			mu.Unlock()
+		} else {
+			mu.Lock()
+			// (each server numbers its own connections: both may well be number 1)
+			ia, ib := seen["cn=on-a"], seen["cn=on-b"]
+			okIDs := ia > 0 && ib > 0 && ((ia == ib && closed[ia] == 2) || (ia != ib && closed[ia] == 1 && closed[ib] == 1))
+			if !okIDs || len(closed) > 2 {
+				verdict = fmt.Sprintf("two servers built from one slice of options: OnClose calls by id = %v, handler ids = %v", closed, seen)
+			}
+			mu.Unlock()
+		}
+	case "routerswap":
+		a, addr, _ := start(mkMux())
+		defer stopAll(a)
+		if a == nil {
+			return "harness-error start"
+		}
+		keep, e := bindOn(addr, "cn=first", false)
+		if e != "" {
+			return e
+		}
+		defer keep.close()
+		_ = a.Router(mkMux())
+		for _, tag := range []string{"cn=second", "cn=third"} {
+			if _, e := bindOn(addr, tag, true); e != "" {
+				return e
+			}
+		}
+		waitClosed(2)
+		keep.close()
+		waitClosed(3)
+		mu.Lock()
+		ids := map[int]bool{seen["cn=first"]: true, seen["cn=second"]: true, seen["cn=third"]: true}
+		if len(ids) != 3 || ids[0] {
+			verdict = fmt.Sprintf("after Router() on the running server its connections report ids %v: not three distinct positive ids", seen)
+		} else {
+			for id := range ids {
+				if closed[id] != 1 {
+					verdict = fmt.Sprintf("after Router() on the running server: OnClose calls by id = %v for connections %v", closed, seen)
+				}
+			}
+		}
+		mu.Unlock()
+	case "stoprouter":
+		a, addr, _ := start(mkMux())
+		if a == nil {
+			return "harness-error start"
+		}
+		busy, e := bindOn(addr, "cn=busy", false)
+		if e != "" {
+			return e
+		}
+		defer busy.close()
+		select {
+		case <-entered:
+		case <-time.After(3 * time.Second):
+			return "harness-error the busy handler never started"
+		}
+		stopped, routed := make(chan struct{}), make(chan struct{})
+		go func() { _ = a.Stop(); close(stopped) }()
+		time.Sleep(30 * time.Millisecond)
+		go func() { _ = a.Router(mkMux()); close(routed) }()
+		time.Sleep(30 * time.Millisecond)
+		close(release)
+		for _, x := range []struct {
+			ch   chan struct{}
+			what string
+		}{{stopped, "Stop"}, {routed, "Router()"}} {
+			select {
+			case <-x.ch:
+			case <-time.After(5 * time.Second):
+				if verdict == "ok" {
+					verdict = x.what + " did not return: Router() was called while Stop waited for a connection whose handler was busy"
+				}
+			}
+		}
+		if verdict == "ok" && !waitClosed(1) {
+			verdict = "Router() called while Stop waited for a busy connection: that connection was never reported through OnClose"
+		}
+		if verdict != "ok" {
+			busy.close()
+		}
+	}
+	return verdict + "\t"
 }
